@@ -53,23 +53,25 @@ def b64Val (c : Char) : Option Nat :=
   else if c = '/' then some 63
   else none
 
-/-- canonical base64 (`general_purpose::STANDARD.decode`) -/
+/-- canonical base64 (`general_purpose::STANDARD.decode`): groups of four symbols; `=` only as the
+    last one or two characters of the text, and then the unused low bits must be zero -/
 def b64Decode : Str → Option Bytes
   | [] => some []
-  | [a, b, '=', '='] =>
-    match b64Val a, b64Val b with
-    | some x, some y => if y % 16 = 0 then some [UInt8.ofNat (x * 4 + y / 16)] else none
-    | _, _ => none
-  | [a, b, c, '='] =>
-    match b64Val a, b64Val b, b64Val c with
-    | some x, some y, some z =>
-      if z % 4 = 0 then some [UInt8.ofNat (x * 4 + y / 16), UInt8.ofNat (y % 16 * 16 + z / 4)] else none
-    | _, _, _ => none
   | a :: b :: c :: d :: rest =>
-    match b64Val a, b64Val b, b64Val c, b64Val d, b64Decode rest with
-    | some x, some y, some z, some w, some tail =>
-      some (UInt8.ofNat (x * 4 + y / 16) :: UInt8.ofNat (y % 16 * 16 + z / 4) :: UInt8.ofNat (z % 4 * 64 + w) :: tail)
-    | _, _, _, _, _ => none
+    if rest = [] ∧ c = '=' ∧ d = '=' then
+      match b64Val a, b64Val b with
+      | some x, some y => if y % 16 = 0 then some [UInt8.ofNat (x * 4 + y / 16)] else none
+      | _, _ => none
+    else if rest = [] ∧ d = '=' then
+      match b64Val a, b64Val b, b64Val c with
+      | some x, some y, some z =>
+        if z % 4 = 0 then some [UInt8.ofNat (x * 4 + y / 16), UInt8.ofNat (y % 16 * 16 + z / 4)] else none
+      | _, _, _ => none
+    else
+      match b64Val a, b64Val b, b64Val c, b64Val d, b64Decode rest with
+      | some x, some y, some z, some w, some tail =>
+        some (UInt8.ofNat (x * 4 + y / 16) :: UInt8.ofNat (y % 16 * 16 + z / 4) :: UInt8.ofNat (z % 4 * 64 + w) :: tail)
+      | _, _, _, _, _ => none
   | _ => none
 
 /-- split a text at the first occurrence of `sep` (plain substring search) -/
